@@ -10,6 +10,7 @@ import (
 	tmproto "github.com/cometbft/cometbft/proto/tendermint/types"
 	"github.com/cosmos/cosmos-sdk/codec"
 	codectypes "github.com/cosmos/cosmos-sdk/codec/types"
+	cryptocodec "github.com/cosmos/cosmos-sdk/crypto/codec"
 	"github.com/cosmos/cosmos-sdk/store"
 	storetypes "github.com/cosmos/cosmos-sdk/store/types"
 	sdk "github.com/cosmos/cosmos-sdk/types"
@@ -38,7 +39,9 @@ func StoreKey(name string) storetypes.StoreKey {
 
 // Codec returns a proto codec.
 func Codec() codec.BinaryCodec {
-	return codec.NewProtoCodec(codectypes.NewInterfaceRegistry())
+	reg := codectypes.NewInterfaceRegistry()
+	cryptocodec.RegisterInterfaces(reg)
+	return codec.NewProtoCodec(reg)
 }
 
 // NewContext returns a fresh context over empty in-memory stores for every key created so far.
